@@ -189,6 +189,28 @@ func c04Impl(in []int64) []int64 {
 		var hs [2]heapz.Heap[int64]
 		hs[0] = heapz.New[int64](0, c04cmp)
 		hs[1] = heapz.New[int64](0, c04cmp)
+		// earlier life of the two Heap objects (the first element of the otherwise unused init list; the model starts
+		// from two empty heaps ordered by c04cmp in every variant): 1 = made by New with the REVERSED comparator, used,
+		// then Init(nil, c04cmp); 2 = zero value, then Init; 3 = as 1 with a non-empty Init under the reversed
+		// comparator in between.  What the heap does must depend on the comparator of its last Init only.
+		if len(init) > 0 && init[0] >= 1 && init[0] <= 3 {
+			rev := func(a, b int64) bool { return c04cmp(b, a) }
+			for h := range hs {
+				switch init[0] {
+				case 1, 3:
+					hs[h] = heapz.New[int64](4, rev)
+					hs[h].Push(3999)
+					hs[h].Push(1999)
+					if init[0] == 3 {
+						hs[h].Init([]int64{999, 2999, 4999}, rev)
+						hs[h].Pop()
+					}
+				default:
+					hs[h] = heapz.Heap[int64]{}
+				}
+				hs[h].Init(nil, c04cmp)
+			}
+		}
 		var handles []*heapz.Element[int64]
 		ids := map[*heapz.Element[int64]]int64{}
 		hsel := func(a int64) int {
@@ -567,6 +589,10 @@ func c04Gen(c *Ctx) {
 	c.Each(c.N(6000, 120000), func(i int, t *T) {
 		r := t.R
 		in := []int64{1, 0}
+		if v := r.Intn(6); v >= 1 && v <= 3 {
+			in = []int64{1, 1, int64(v)}
+			t.C.Count("heap-earlier-life", []string{"", "New(reversed cmp), used, Init(nil, cmp)", "zero value, Init(nil, cmp)", "New(reversed), Init(values, reversed), Init(nil, cmp)"}[v])
+		}
 		nh := 0
 		nops := 3 + r.Intn(58)
 		kinds := map[int64]bool{}
